@@ -143,8 +143,7 @@ func (bc *boundaryChecker) safe(fn *ssa.Function, v, s ssa.Value, at *ssa.BasicB
 			// i + 1 where s[i] was tested against ASCII on every path to here
 			if k, ok := eng.ConstInt(x.Y); ok && k == 1 {
 				m := eng.MustCross(fn, func(e eng.Edge) bool {
-					f, ok := eng.EdgeFact(e)
-					return ok && bc.asciiAt(f, s, func(idx ssa.Value) bool { return idx == x.X })
+					return eng.AnyEdgeFact(e, func(f eng.Fact) bool { return bc.asciiAt(f, s, func(idx ssa.Value) bool { return idx == x.X }) })
 				}, nil)
 				if m[at] || m[x.Block()] {
 					return true, ""
@@ -182,8 +181,7 @@ func (bc *boundaryChecker) safe(fn *ssa.Function, v, s ssa.Value, at *ssa.BasicB
 	}
 	// index i itself where s[i] was tested ASCII
 	m := eng.MustCross(fn, func(e eng.Edge) bool {
-		f, ok := eng.EdgeFact(e)
-		return ok && bc.asciiAt(f, s, func(idx ssa.Value) bool { return idx == v })
+		return eng.AnyEdgeFact(e, func(f eng.Fact) bool { return bc.asciiAt(f, s, func(idx ssa.Value) bool { return idx == v }) })
 	}, nil)
 	if m[at] {
 		return true, ""
